@@ -687,4 +687,6 @@ pub fn run(run: &mut Run, args: &Args) {
         random_history(run, &mut rng, i);
     }
     let _ = std::panic::take_hook();
+    // real-thread detectors (hand-off wakers, race sweeps) + their self-test
+    crate::rt15::run_detectors(run, &mut rng);
 }
